@@ -33,7 +33,7 @@ M = Monitor(
     deciding=["capture.calculate_capture", "utils.integral", "estimator.ReceptorEstimator.capture"],
     required_cells={"all": ["shape=1Dx1D", "shape=2Dx1D", "shape=1Dx2D", "shape=2Dx2D", "shape=batch",
                             "domain=scalar", "domain=uniform", "domain=nonuniform", "domain=dyadic",
-                            "trapz=False", "trapz=True"]},
+                            "trapz=False", "trapz=True", "domain-units=small", "domain-units=large"]},
     assumptions=["float64 summation-order differences bounded by 1e-12 * sum |w s f|",
                  "inputs finite; domains strictly ascending"],
 )
@@ -57,6 +57,24 @@ def gen_domain(rng, n):
     # dyadic: steps that are multiples of 1/8, integer data => exact float arithmetic
     d = rng.integers(1, 40, n - 1) / 8.0
     return kind, np.concatenate([[float(rng.integers(0, 300))], float(rng.integers(0, 300)) + np.cumsum(d)])
+
+
+UNIT_SCALES = [1e-9, 1e-6, 1e-3, 1.0, 1.0, 1.0, 1e3, 1e6]     # e.g. wavelengths in m, um, mm, nm ...
+
+
+def _rescale(rng, inp):
+    """Express the domain in other units (and the values in other magnitudes); powers of ten keep dyadic cases
+    inexact, so exactness is only asserted for the unscaled ones."""
+    u = float(UNIT_SCALES[rng.integers(len(UNIT_SCALES))])
+    v = float([1.0, 1.0, 1e-9, 1e9][rng.integers(4)])
+    if u != 1.0:
+        inp["domain"] = inp["domain"] * u
+        inp["exact"] = False
+    if v != 1.0:
+        inp["filters"] = inp["filters"] * v
+        inp["exact"] = False
+    inp["unit_scale"] = u
+    return inp
 
 
 def _fix_domain(kind, dom, n):
@@ -111,13 +129,15 @@ def gen_oracle(rng, i):
     cls, fs, ss = gen_shapes(rng)
     exact = kind == "dyadic" or (kind == "scalar" and dom in (0.5, 1.0, 2.0) and rng.integers(2) == 0)
     trapz = bool(rng.integers(4) != 0)
-    return {"filters": gen_values(rng, fs + (n,), exact), "signals": gen_values(rng, ss + (n,), exact),
-            "domain": dom, "dkind": kind, "cls": cls, "trapz": trapz, "exact": bool(exact),
-            "domain_as_list": bool(rng.integers(4) == 0)}
+    return _rescale(rng, {"filters": gen_values(rng, fs + (n,), exact), "signals": gen_values(rng, ss + (n,), exact),
+                          "domain": dom, "dkind": kind, "cls": cls, "trapz": trapz, "exact": bool(exact),
+                          "domain_as_list": bool(rng.integers(4) == 0)})
 
 
 def _cells(c, inp):
     c.cell("shape=" + inp["cls"], "trapz=" + str(inp["trapz"]))
+    if inp.get("unit_scale", 1.0) != 1.0:
+        c.cell("domain-units=" + ("small" if inp["unit_scale"] < 1 else "large"))
     k = inp["dkind"]
     c.cell("domain=" + ("scalar" if k == "scalar" else "uniform" if k == "uniform" else
                         "dyadic" if k == "dyadic" else "nonuniform"))
@@ -285,9 +305,14 @@ def gen_integral(rng, i):
     kind, dom = gen_domain(rng, n)
     dom = _fix_domain(kind, dom, n)
     exact = kind == "dyadic"
-    return {"arr": gen_values(rng, tuple(shape), exact), "domain": dom, "dkind": kind,
-            "axis": ax - nd if rng.integers(2) else ax, "keepdims": bool(rng.integers(2)), "exact": bool(exact),
-            "default_axis": bool(ax == nd - 1 and rng.integers(2))}
+    out = {"arr": gen_values(rng, tuple(shape), exact), "domain": dom, "dkind": kind,
+           "axis": ax - nd if rng.integers(2) else ax, "keepdims": bool(rng.integers(2)), "exact": bool(exact),
+           "default_axis": bool(ax == nd - 1 and rng.integers(2))}
+    u = float(UNIT_SCALES[rng.integers(len(UNIT_SCALES))])
+    if u != 1.0:
+        out["domain"] = out["domain"] * u
+        out["exact"] = False
+    return out
 
 
 def chk_integral(inp, c):
@@ -330,9 +355,10 @@ def gen_est(rng, i):
     dom = _fix_domain(kind, dom, n)
     nf, ns = int(rng.integers(1, 6)), int(rng.integers(1, 7))
     sig1d = bool(rng.integers(5) == 0)
+    u = float(UNIT_SCALES[rng.integers(len(UNIT_SCALES))])
     return {"filters": np.abs(gen_values(rng, (nf, n), False)),
             "signals": gen_values(rng, (n,) if sig1d else (ns, n), False),
-            "domain": dom, "dkind": kind, "pass_domain": bool(rng.integers(2))}
+            "domain": dom * u, "dkind": kind, "pass_domain": bool(rng.integers(2))}
 
 
 def chk_est(inp, c):
